@@ -5,6 +5,7 @@ import (
 	"math/rand"
 	"os"
 	"path/filepath"
+	"strings"
 	"sync"
 	"testing"
 
@@ -998,6 +999,9 @@ func (h *hist) storageProofs(l *mat.Ledger, n int) (out []*mat.PoolTx) {
 // blockOn mines a child of `parent` that confirms exactly the given pool transactions, leaves every
 // other pooled input alone and runs the given chain operations.
 func (h *hist) blockOn(parent int, confirm []*mat.PoolTx, ops ...string) int {
+	if h.x.dead {
+		return parent // the history was abandoned (a finding was recorded): nothing more is built
+	}
 	pooled := h.pooledInputs()
 	nd := h.s.Tree.AddCustom(parent+h.s.Warm, h.rng, 0, func(b *mat.Builder) {
 		for id := range pooled {
@@ -1189,6 +1193,19 @@ func (h *hist) scriptCrossKindEviction(k int) {
 	h.x.LookupSweep()
 }
 
+// scriptKinds: which directed histories this run plays ($VERIF_SCRIPT_KINDS, comma separated), in turn.
+func scriptKinds() []string {
+	var out []string
+	for _, k := range strings.Split(hx.Env("VERIF_SCRIPT_KINDS", "storage-proof,mixed-inputs,cross-kind-eviction"), ",") {
+		if k != "" {
+			out = append(out, k)
+		}
+	}
+	return out
+}
+
+func scriptKind(k int) string { ks := scriptKinds(); return ks[k%len(ks)] }
+
 // scriptedRun plays one of the directed interplay histories.
 func (h *hist) scriptedRun(k int) {
 	if err := h.x.Reset(); err != nil {
@@ -1196,13 +1213,13 @@ func (h *hist) scriptedRun(k int) {
 		return
 	}
 	h.applied[1] = true
-	switch k % 3 {
-	case 0:
+	switch scriptKind(k) {
+	case "storage-proof":
 		h.scriptStorageProof()
-	case 1:
-		h.scriptMixedInputs(k / 3)
-	case 2:
-		h.scriptCrossKindEviction(k / 3)
+	case "mixed-inputs":
+		h.scriptMixedInputs(k / len(scriptKinds()))
+	case "cross-kind-eviction":
+		h.scriptCrossKindEviction(k / len(scriptKinds()))
 	}
 	if !h.x.dead {
 		h.x.Obs()
@@ -1273,14 +1290,14 @@ func TestDriver(t *testing.T) {
 				if heavy && k%2 == 1 {
 					regime = "both" // the v1 variant needs a regime that still admits v1
 				}
-				if scripted && k%3 == 2 {
+				if scripted && scriptKind(k) == "cross-kind-eviction" {
 					regime = "both" // v1 and v2 in one pool
 				}
 				if heavy || scripted {
 					s = NewScen(regime, seed, 2)
 					s.Name = fmt.Sprintf("%s-heavy-%d-%s", mode, k, regime)
 					if scripted {
-						s.Name = fmt.Sprintf("%s-scripted-%s-%d-%s", mode, []string{"storage-proof", "mixed-inputs", "cross-kind-eviction"}[k%3], k, regime)
+						s.Name = fmt.Sprintf("%s-scripted-%s-%d-%s", mode, scriptKind(k), k, regime)
 					}
 					x = NewExec(s, res, tw, len(abs)+1)
 					x.Stub = stub
